@@ -1,4 +1,5 @@
 import PlzVerif.Model.AspInterp
+import PlzVerif.Lemmas.AspFreeze
 import PlzVerif.Model.AspGenerated
 /-!
 C18  Frozen (imported) values behave like ordinary values.
@@ -33,6 +34,8 @@ def FactsOK : Bool :=
   -- `type pyFrozenList struct { pyList }` and the wrapper redefines nothing the transparent operations go through
   -- (Operator, Len, IsTruthy, Type, the iteration): that is why they cannot tell the wrapper from the list
   raw.frozenListEmbedsList &&
+  -- both branches of list `+` clip the RESULT: a sum never has spare capacity, whether the right operand is frozen or not
+  raw.listAddClips && raw.listAddFrozenClipsResult &&
   raw.frozenListMethods.all (fun m => ["Freeze", "IndexAssign", "MarshalJSON", "String"].contains m)
 
 theorem C18_facts_ok : FactsOK = true := by decide
@@ -156,21 +159,102 @@ theorem C18_transparent_ops (a o l c : Nat) (idx item : Val) (neg : Bool) (F' : 
     binOp F' .mul (.list true a o l c) (.int n) = binOp F' .mul (.list false a o l c) (.int n) :=
   ⟨rfl, rfl, rfl, rfl, rfl, rfl⟩
 
-/-- `+` with the frozen list on the **right**: the same sum as with the plain list exactly when `pyList.Operator`
-    has its branch for a `pyFrozenList` operand (regenerated fact `addAcceptsFrozen`); without that branch the sum
-    fails, in every state. -/
+/-- `+` with the frozen list on the **right**: the same sum as with the plain list when `pyList.Operator` has its
+    branch for a `pyFrozenList` operand and that branch clips its result like the plain one (regenerated facts
+    `addAcceptsFrozen`, `addFrozenClipsResult`); without the branch the sum fails, in every state. -/
 theorem C18_add_frozen_right (F' : Facts) (a o l c a2 o2 l2 c2 : Nat) :
-    (F'.addAcceptsFrozen = true →
+    (F'.addAcceptsFrozen = true → F'.addFrozenClipsResult = true →
       binOp F' .add (.list false a2 o2 l2 c2) (.list true a o l c)
         = binOp F' .add (.list false a2 o2 l2 c2) (.list false a o l c)) ∧
     (F'.addAcceptsFrozen = false → ∀ st,
       (binOp F' .add (.list false a2 o2 l2 c2) (.list true a o l c)).run st = .error "Cannot add list and list") := by
   constructor
-  · intro h; simp [binOp, h]
+  · intro h h2; simp [binOp, h, h2]
   · intro h st; simp [binOp, h]; rfl
 
 /-- Today the branch is there. -/
 theorem C18_add_frozen_right_today : F.addAcceptsFrozen = true := by decide
+
+/-! ### Two values derived from one sum: the sum must not have spare capacity -/
+
+/-- **`plain + imported` is `plain + local`** when the frozen branch is there and clips its result (regenerated
+    facts `addAcceptsFrozen`, `addFrozenClipsResult`): the same computation, in every state. -/
+theorem C18_add_frozen_right_clipped (F' : Facts) (h1 : F'.addAcceptsFrozen = true) (h2 : F'.addFrozenClipsResult = true)
+    (a o l c a2 o2 l2 c2 : Nat) :
+    binOp F' .add (.list false a2 o2 l2 c2) (.list true a o l c)
+      = binOp F' .add (.list false a2 o2 l2 c2) (.list false a o l c) := by
+  simp [binOp, h1, h2]
+
+/-- the result of `listAppend` never has spare capacity -/
+theorem listAppend_no_spare (F' : Facts) (arr off len cap : Nat) (ys : List Val) (st st' : St) (v : Val)
+    (h : (listAppend F' arr off len cap ys).run st = .ok (v, st')) : ∃ a o n, v = .list false a o n n := by
+  unfold listAppend at h
+  by_cases ha : F'.addAppends = true
+  · simp only [ha, if_true] at h
+    by_cases hn : (ys.length == 0) = true
+    · simp only [hn, if_true] at h; rw [run_pure_ok] at h; cases h; exact ⟨_, _, _, rfl⟩
+    · simp only [hn, Bool.false_eq_true, if_false] at h
+      by_cases hc : len + ys.length ≤ cap
+      · simp only [hc, if_true] at h
+        rw [run_bind_ok] at h; obtain ⟨u, s1, _, h⟩ := h
+        rw [run_pure_ok] at h; cases h; exact ⟨_, _, _, rfl⟩
+      · simp only [hc, if_false] at h
+        rw [run_bind_ok] at h; obtain ⟨xs, s1, _, h⟩ := h
+        unfold mkList at h
+        rw [run_bind_ok] at h; obtain ⟨a, s2, _, h⟩ := h
+        rw [run_pure_ok] at h; cases h; exact ⟨_, _, _, rfl⟩
+  · simp only [ha, Bool.false_eq_true, if_false] at h
+    rw [run_bind_ok] at h; obtain ⟨xs, s1, _, h⟩ := h
+    unfold mkList at h
+    rw [run_bind_ok] at h; obtain ⟨a, s2, _, h⟩ := h
+    rw [run_pure_ok] at h; cases h; exact ⟨_, _, _, rfl⟩
+
+/-- **Two-step derivations are safe under the fact**: with `addFrozenClipsResult`, the sum `x = plain + imported` has no
+    spare capacity, so every later `x + ys` only extends the heap — `y = x + [a]` cannot be overwritten by
+    `z = x + [b]` (all states, all lists). -/
+theorem C18_sum_with_frozen_then_add_never_writes (F' : Facts) (h2 : F'.addFrozenClipsResult = true)
+    (a o l c a2 o2 l2 c2 : Nat) (st st' : St) (x : Val)
+    (hx : (binOp F' .add (.list false a2 o2 l2 c2) (.list true a o l c)).run st = .ok (x, st')) :
+    (∃ ax ox n, x = .list false ax ox n n) ∧
+    ∀ (fz3 : Bool) (a3 o3 l3 c3 : Nat) (st'' : St) (y : Val),
+      (binOp F' .add x (.list fz3 a3 o3 l3 c3)).run st' = .ok (y, st'') → Ext st' st'' := by
+  have hshape : ∃ ax ox n, x = .list false ax ox n n := by
+    simp only [binOp, h2] at hx
+    split at hx
+    · exact absurd hx (fail_run _ _ _)
+    · rw [run_bind_ok] at hx; obtain ⟨ys, s1, h1, hx⟩ := hx
+      simp only [Bool.not_true, Bool.and_false, Bool.false_eq_true, if_false] at hx
+      exact listAppend_no_spare F' _ _ _ _ ys _ _ x hx
+  refine ⟨hshape, ?_⟩
+  obtain ⟨ax, ox, n, rfl⟩ := hshape
+  intro fz3 a3 o3 l3 c3 st'' y hy
+  simp only [binOp, h2] at hy
+  split at hy
+  · exact absurd hy (fail_run _ _ _)
+  · rw [run_bind_ok] at hy; obtain ⟨ys, s1, h1, hy⟩ := hy
+    have := (elems_run h1).1; subst this
+    simp only [Bool.not_true, Bool.and_false, Bool.false_eq_true, if_false] at hy
+    exact listAppend_exact_cap F' ax ox n ys _ _ y hy
+
+/-- `x = [5, 6, 7, 8] + X; y = x + [101]; z = x + [202]; r = y` -/
+def wTwoDerived : Program :=
+  [.assign "x" (.chain none (.list 2 [.int 5, .int 6, .int 7, .int 8]) [(.add, none, .name "X")]),
+   .assign "y" (.chain none (.name "x") [(.add, none, .list 3 [.int 101])]),
+   .assign "z" (.chain none (.name "x") [(.add, none, .list 4 [.int 202])]),
+   .assign "r" (.name "y")]
+
+/-- The facts of a frozen branch that clips its first argument instead of its result. -/
+def unclipped : Facts := { F with addFrozenClipsResult := false }
+
+set_option maxRecDepth 100000 in
+/-- **The fact is necessary**: with `append(slices.Clip(l), l2.pyList...)` the sum of 4 + 3 elements gets capacity 8,
+    `y` and `z` share the eighth slot, and on the imported `X` (only there) `y` ends in 202; today both runs give 101. -/
+theorem C18_witness_unclipped_sum :
+    differsF unclipped 60 vList wTwoDerived = true ∧
+    (globalsOfRun (localRunF unclipped 60 vList wTwoDerived)).isSome = true ∧
+    (globalsOfRun (importedRunF unclipped 60 vList wTwoDerived)).isSome = true ∧
+    differs 60 vList wTwoDerived = false ∧ (globalsOfRun (importedRun 60 vList wTwoDerived)).isSome = true := by
+  decide +kernel
 
 /-- The same for dicts: index, `in`, `len`, `|` with the frozen dict on the left. -/
 theorem C18_transparent_dict_ops (d : Nat) (idx item : Val) (neg : Bool) (F' : Facts) (other : Val) :
